@@ -678,7 +678,7 @@ def run(ctx):
         batches[(i + rot) % nb].append(sg)
     args = [(ctx.chibicc, os.path.join(ctx.work, "b%d" % i), i, b, thunk_o) for i, b in enumerate(batches)]
     thunk_src = open(os.path.join(HARNESS, "c06_thunk.S")).read()
-    done = tests = nsig = odis = ncrash = unconf = 0
+    done = tests = nsig = odis = ncrash = unconf = nrejected = 0
     stage_counts = {}
     failing = set()
     for grp in core.chunks(args, core.NPROC * 2):
@@ -700,6 +700,7 @@ def run(ctx):
             unconf += len(res.get("unconfirmed", []))
             for i, stage, st, err in res["ccfail"]:
                 sg = bsigs[i]
+                nrejected += 1
                 unit, stubs, drv = build_batch([sg])
                 what = "probe:" + arg_label(sg, min(sg.probe, len(sg.args) - 1)) if sg.args else "no-args"
                 sig = "C06|compile|%s|%s|%s-fails:%s" % ("fixed" if sg.nnamed is None else "variadic", what, stage, st)
@@ -724,12 +725,14 @@ def run(ctx):
         raise core.HarnessError("%d oracle disagreements (gcc->gcc failed or model %%al != gcc %%al), see evidence samples" % odis)
     if unconf:
         ctx.cover(failures_not_reproduced_in_isolation=unconf)
-    if ctx.exhaustive and tests < 4 * len(sigs) * 0.95:
-        raise core.HarnessError("vacuous: %d tests for %d signatures" % (tests, len(sigs)))
+    if tests != 4 * nsig:
+        raise core.HarnessError("driver ran %d tests for %d compiled signatures" % (tests, nsig))
+    if ctx.exhaustive and nsig + nrejected != len(sigs):
+        raise core.HarnessError("%d signatures run + %d rejected by chibicc != %d enumerated" % (nsig, nrejected, len(sigs)))
     if nsig == 0:
         raise core.HarnessError("no signature was executed")
     ctx.cover(evaluations=tests + gev, signatures=len(sigs), signatures_run=nsig, distinct_nontrivial=nsig + gdist,
-              aggregate_types=ntypes, eightbyte_shapes=nreps, failing_signature_configs=len(failing), crashes=ncrash,
+              aggregate_types=ntypes, eightbyte_shapes=nreps, failing_signature_configs=len(failing), crashes=ncrash, rejected_by_chibicc=nrejected,
               undefined_bit_evaluations=gev, per_stage=stage_counts, oracle_disagreements=odis,
               rule="one case = one signature (return type, parameter types, fixed/variadic+named count, caller context) linked in 3 "
                    "caller/callee compiler pairings (+gcc->gcc as self-check); non-trivial = the callee was entered and every value "
